@@ -83,7 +83,7 @@ func init() {
 		h := handleOf(c.args[1])
 		arr := c.x.ghostGet(c.st, h, d.name, d.sort, d.gi)
 		sel := app("select", arr, c.t(2))
-		some := app("(_ is Some)", sel)
+		some := isSomeT(sel, "(Opt "+c.x.enc.Sort(d.valTy)+")")
 		v := TV{T: ite(some, app("val", sel), c.x.enc.Zero(d.valTy)), Ty: d.valTy}
 		if some == sel { // never
 		}
@@ -95,7 +95,7 @@ func init() {
 	reg("(cosmossdk.io/collections.Map[K, V]).Has", "Map.Has returns (present,nil) (A-STORE)", func(c *CallCtx) []Outcome {
 		d, _ := c.x.coll(c.args[0])
 		arr := c.x.ghostGet(c.st, handleOf(c.args[1]), d.name, d.sort, d.gi)
-		return c.ret(TV{T: app("(_ is Some)", app("select", arr, c.t(2))), Ty: tBool}, nilErr())
+		return c.ret(TV{T: isSomeT(app("select", arr, c.t(2)), "(Opt "+c.x.enc.Sort(d.valTy)+")"), Ty: tBool}, nilErr())
 	})
 	reg("(cosmossdk.io/collections.Map[K, V]).Set", "Map.Set stores Some(v) at key and returns nil (A-STORE)", func(c *CallCtx) []Outcome {
 		d, ok := c.x.coll(c.args[0])
@@ -129,7 +129,7 @@ func init() {
 			return nil
 		}
 		o := c.x.ghostGet(c.st, handleOf(c.args[1]), d.name, d.sort, d.gi)
-		some := app("(_ is Some)", o)
+		some := isSomeT(o, d.sort)
 		for _, f := range c.x.enc.TypeFacts(app("val", o), d.valTy, 0) {
 			c.st.Assume(implies(some, f))
 		}
@@ -138,7 +138,7 @@ func init() {
 	reg("(cosmossdk.io/collections.Item[V]).Has", "Item.Has returns (isSet,nil)", func(c *CallCtx) []Outcome {
 		d, _ := c.x.coll(c.args[0])
 		o := c.x.ghostGet(c.st, handleOf(c.args[1]), d.name, d.sort, d.gi)
-		return c.ret(TV{T: app("(_ is Some)", o), Ty: tBool}, nilErr())
+		return c.ret(TV{T: isSomeT(o, d.sort), Ty: tBool}, nilErr())
 	})
 	reg("(cosmossdk.io/collections.Item[V]).Set", "Item.Set stores the value and returns nil", func(c *CallCtx) []Outcome {
 		d, _ := c.x.coll(c.args[0])
@@ -211,7 +211,7 @@ func init() {
 					args = append(args, tv)
 				} else if e != nil {
 					switch e.(type) {
-					case SliceRef, MapRef:
+					case SliceRef, MapRef, ByteView:
 						args = append(args, c.x.asTV(c.st, e))
 					}
 				}
@@ -402,7 +402,13 @@ func init() {
 	reg("github.com/cosmos/cosmos-sdk/types/address.Module", "address.Module(name,key) is an injective function of (name,key) producing 32 bytes (A-HASH)", func(c *CallCtx) []Outcome {
 		e := c.x.enc
 		e.DeclFun("addrModule", []string{"Bytes", "Bytes"}, "Bytes")
-		return c.ret(TV{T: app("addrModule", c.t(0), c.t(1)), Ty: tBytes})
+		keys := c.tv(1)
+		if seqLen(keys.T) != "1" {
+			c.x.fail("address.Module with other than one derivation key")
+			return nil
+		}
+		k := simpSelect(app("seq.arr", keys.T), "0")
+		return c.ret(TV{T: app("addrModule", c.t(0), k), Ty: tBytes})
 	})
 	reg("(github.com/cosmos/cosmos-sdk/types.AccAddress).String", "AccAddress.String is a pure function of the bytes", func(c *CallCtx) []Outcome {
 		c.x.enc.DeclFun("accStr", []string{"Bytes"}, "Bytes")
@@ -583,9 +589,11 @@ func simpProj(f, t string) string {
 }
 
 func (x *Exec) errNotFound() string {
-	x.enc.DeclConst("ERR_NOTFOUND", "Int")
-	x.enc.Axiom("(= ERR_NOTFOUND 902)")
-	return "ERR_NOTFOUND"
+	// the same identity as the package-level sentinel collections.ErrNotFound
+	name := "G_cosmossdk.io_collections_ErrNotFound"
+	x.enc.DeclConst(name, "Int")
+	x.enc.Axiom(fmt.Sprintf("(= %s %d)", name, x.sentinelID(name)))
+	return name
 }
 
 func (x *Exec) litText(c string) string {
